@@ -179,6 +179,10 @@ pub struct Observed {
   pub in_node_data: Vec<Vec<u32>>,
   pub desc_unsorted: Vec<Option<Vec<(u32, usize)>>>,
   pub desc_sorted: Vec<Option<Vec<usize>>>,
+  /// The same two iterators for node a, but consumed one item at a time with reachability queries and a second pair
+  /// of iterators (over the next node) advanced in between: what an iterator yields must not depend on other calls.
+  pub desc_unsorted_lazy: Vec<Option<Vec<usize>>>,
+  pub desc_sorted_lazy: Vec<Option<Vec<usize>>>,
 }
 
 pub fn observe(s: &Sut) -> Observed {
@@ -200,7 +204,7 @@ pub fn observe(s: &Sut) -> Observed {
     edge_data: Vec::with_capacity(n * n),
     out_edges: Vec::new(), out_nodes: Vec::new(), out_data: Vec::new(), out_node_data: Vec::new(),
     in_edges: Vec::new(), in_nodes: Vec::new(), in_data: Vec::new(), in_node_data: Vec::new(),
-    desc_unsorted: Vec::new(), desc_sorted: Vec::new(),
+    desc_unsorted: Vec::new(), desc_sorted: Vec::new(), desc_unsorted_lazy: Vec::new(), desc_sorted_lazy: Vec::new(),
   };
   for a in 0..n {
     for b in 0..n {
@@ -219,6 +223,31 @@ pub fn observe(s: &Sut) -> Observed {
     o.in_node_data.push(d.get_incoming_edge_node_data(h).copied().collect());
     o.desc_unsorted.push(d.descendants_unsorted(h).ok().map(|it| it.map(|(r, x)| (r, idx(&x))).collect()));
     o.desc_sorted.push(d.descendants(h).ok().map(|it| it.map(|x| idx(&x)).collect()));
+    // interleaved consumption
+    let other = s.handles[(a + 1) % n];
+    match (d.descendants_unsorted(h), d.descendants(h)) {
+      (Ok(mut iu), Ok(mut is)) => {
+        let (mut ou, mut os) = (Vec::new(), Vec::new());
+        let mut ju = d.descendants_unsorted(other).ok();
+        let mut js = d.descendants(other).ok();
+        let mut k = 0usize;
+        loop {
+          let x = iu.next();
+          let _ = d.contains_transitive_edge(other, h);
+          if let Some(j) = ju.as_mut() { let _ = j.next(); }
+          let y = is.next();
+          let _ = d.contains_transitive_edge(h, s.handles[(a + k) % n]);
+          if let Some(j) = js.as_mut() { let _ = j.next(); }
+          if let Some((_, node)) = &x { ou.push(idx(node)); }
+          if let Some(node) = &y { os.push(idx(node)); }
+          k += 1;
+          if (x.is_none() && y.is_none()) || k > 4 * n + 8 { break; }
+        }
+        o.desc_unsorted_lazy.push(Some(ou));
+        o.desc_sorted_lazy.push(Some(os));
+      }
+      _ => { o.desc_unsorted_lazy.push(None); o.desc_sorted_lazy.push(None); }
+    }
   }
   o
 }
@@ -292,6 +321,14 @@ pub fn compare(o: &Observed, m: &Model, s: &Sut) -> Result<(), (&'static str, St
         if got2 != want { return Err(("C11", format!("descendants({}) = {:?} but reachable set is {:?}", a, ds, want))); }
         for w in ds.windows(2) {
           if o.ranks[w[0]] >= o.ranks[w[1]] { return Err(("C11", format!("descendants({}) not in ascending rank: {:?}", a, ds))); }
+        }
+        match (&o.desc_unsorted_lazy[a], &o.desc_sorted_lazy[a]) {
+          (Some(lu), Some(ls)) => {
+            let gl: BTreeSet<usize> = lu.iter().copied().collect();
+            if gl.len() != lu.len() || gl != want { return Err(("C11", format!("descendants_unsorted({}) consumed one item at a time, with reachability queries and another iterator advanced in between, yields {:?} but the reachable set is {:?}", a, lu, want))); }
+            if ls != ds { return Err(("C11", format!("descendants({}) consumed one item at a time, with reachability queries and another iterator advanced in between, yields {:?} instead of {:?}", a, ls, ds))); }
+          }
+          _ => return Err(("C11", format!("descendants*({}) could not be created a second time", a))),
         }
       }
       _ => return Err(("C11", format!("descendants*({}) Ok/Err does not match liveness {}", a, m.alive[a]))),
